@@ -21,7 +21,12 @@ import (
 	"tunnox-core/verif/vkit"
 )
 
-func TestMain(m *testing.M) { vkit.Main(m, "C16") }
+func TestMain(m *testing.M) {
+	if !isChild() && os.Getenv("VERIF_REPLAY") == "" && os.Getenv("C16_NO_LONG") == "" {
+		startPeriodicChild() // ~31 s scenario, runs beside the sequential components
+	}
+	vkit.Main(m, "C16")
+}
 
 // component describes one managed component's contention rounds.
 type component struct {
@@ -79,7 +84,7 @@ func journalPath() string {
 	if d := os.Getenv("VERIF_REPLAY_DIR"); d != "" {
 		dir = d
 	}
-	return filepath.Join(dir, fmt.Sprintf("current.s%d.json", vkit.Shard()))
+	return filepath.Join(dir, fmt.Sprintf("current.s%d%s.json", vkit.Shard(), os.Getenv("C16_JOURNAL_SUFFIX")))
 }
 
 // journal records the round that is about to run, so that a process crash is attributable.
@@ -709,6 +714,9 @@ func TestReplay(t *testing.T) {
 		t.Fatalf("replay names unknown component %q", r.Comp)
 	}
 	n := 2000
+	if r.Comp == compPeriodic.name {
+		n = 3 // each round waits for the handler's real 30 s tick
+	}
 	if s := os.Getenv("C16_REPLAY_ROUNDS"); s != "" {
 		n, _ = strconv.Atoi(s)
 	}
